@@ -521,6 +521,11 @@ Theorem C05_refines_nonrec :
     Zk o G' w k X xi = Zk o G w k0 X xi.
 Proof. exact @refines_Zk_nonrec. Qed.
 Print Assumptions C05_refines_nonrec.
+Example C05_refines_example :
+  exists g' cs, factorize_hrg_model 0 gN (fun _ => orcN) = Ok g'
+    /\ refines (to_sp_grammar [2] gN) (to_sp_grammar [2] g') 3 (M_of cs)
+               (rk_of (fh_elabels gN) (fh_elabels g') cs) (owner_of (fh_elabels gN) (fh_elabels g') cs).
+Proof. exact gN_refines. Qed.
 Theorem C05_refines_sandwich :
   forall G G' n0 M rk owner, refines G G' n0 M rk owner ->
   forall (R : Type) (o : sr_ops R), sr_ring o -> sr_ordered o -> forall (w : env (R:=R)) k X xi, X < n0 ->
